@@ -24,9 +24,9 @@ def conds(tier):
                 bounds=b1 + "; 3 qualifier combinations"),
         xh.Cond(M, "c02_unrelated_scope", t(120, 1200), examples=[ex(p="T", q="Traits")], bounds=b1),
         xh.Cond(M, "c02_two_params", t(120, 1200), examples=[ex(p="T", q="U")], bounds=b),
-        xh.Cond(M, "c02_nested_d1", t(150, 1500), examples=[ex(p="T", q="K", shape=0), ex(p="T", q="K", shape=2)], bounds=b + "; 4 inner shapes"),
-        xh.Cond(M, "c02_nested_d2", t(150, 1500), examples=[ex(p="T", q="K", shape=0), ex(p="T", q="K", shape=2)],
-                bounds=("len(p)<=1, len(q)<=2" if q else "len(p)<=2, len(q)<=3") + "; 4 inner shapes"),
+        xh.Cond(M, "c02_nested_d1", t(300, 1800), examples=[ex(p="T", q="K", shape=0), ex(p="T", q="K", shape=2), ex(p="T", q="K", shape=4)], bounds=b + "; 5 inner shapes (plain, const&, T::Value, T*, T::Rebind<T, This>)"),
+        xh.Cond(M, "c02_nested_d2", t(240, 1800), examples=[ex(p="T", q="K", shape=0), ex(p="T", q="K", shape=2), ex(p="T", q="K", shape=4)],
+                bounds=("len(p)<=1, len(q)<=2" if q else "len(p)<=2, len(q)<=3") + "; 5 inner shapes"),
         xh.Cond(M, "c02_nested_d3", t(150, 1500), examples=[ex(p="T", q="K", shape=1), ex(p="X", q="M", shape=2)],
                 bounds=("len(p)<=1, len(q)<=2" if q else "len(p)<=2, len(q)<=3") + "; 4 inner shapes"),
         xh.Cond(M, "c02_this", t(120, 900), examples=[ex(q="Val", shape=1), ex(q="Thisx", shape=3), ex(q="w", shape=2)],
